@@ -207,6 +207,11 @@ def auto_discharge(s):
     node = ('b', s.block)
     op = s.op
     ops = s.ops
+    if op == 'BoundsCheck':
+        ln, ix = (q.const_val(b, ops[0]), q.const_val(b, ops[1])) if len(ops) == 2 else (None, None)
+        if ln is not None and ix is not None and ix < ln:
+            return 'constant index %d into an array of %d' % (ix, ln)
+        return None
     if op in ('DivisionByZero', 'RemainderByZero'):
         # the assert's condition is `divisor == 0`; its message operand is the dividend
         if s.cond is not None:
